@@ -104,7 +104,7 @@ fn honest_profile() -> Profile {
 pub fn sc_interop(idx: u64, seed: u64, _t: bool) -> RunOut {
     let plan = Plan {
         scenario: "interop",
-        opts: CfgOpts { late_psk: 0, ..CfgOpts::default() },
+        opts: CfgOpts { late_psk: 0, noncanonical_rs: 40, ..CfgOpts::default() },
         profile: Profile { wild_buffers: true, ..honest_profile() },
         mode: "plain",
         warm_parallel: false,
@@ -325,6 +325,9 @@ pub fn apply_mismatch(cfg: &mut RunCfg, rng: &mut Rng) {
     if proto.psk_mods.len() == 1 {
         choices.push("psk-index");
     }
+    if proto.psk_mods.len() >= 2 {
+        choices.push("psk-order");
+    }
     if !proto.needs_remote_static(true) && !proto.needs_remote_static(false) {
         choices.push("dh");
     }
@@ -368,6 +371,19 @@ pub fn apply_mismatch(cfg: &mut RunCfg, rng: &mut Rng) {
                 let tail = rng.bytes(extra);
                 cfg.nodes[side].psks[k].key.extend_from_slice(&tail);
                 cfg.nodes[side].psks[k].at_boot = false;
+            },
+            "psk-order" => {
+                // the same modifiers spelled in another order: a different protocol name
+                let proto = Proto::parse(&cfg.nodes[side].name).unwrap();
+                let parts: Vec<String> = cfg.nodes[side].name.split('_').map(|s| s.to_string()).collect();
+                let mut mods: Vec<String> = parts[1][proto.base.len()..].split('+').map(|m| m.to_string()).collect();
+                if mods.len() >= 2 {
+                    mods.rotate_left(1);
+                    let newname = format!("Noise_{}{}_{}_{}_{}", proto.base, mods.join("+"), parts[2], parts[3], parts[4]);
+                    if Proto::parse(&newname).is_ok() {
+                        cfg.nodes[side].name = newname;
+                    }
+                }
             },
             "psk-index" => {
                 // same PSK value, another (valid) position
@@ -577,7 +593,7 @@ fn chaos_profile() -> Profile {
 pub fn sc_chaos(idx: u64, seed: u64, _t: bool) -> RunOut {
     let plan = Plan {
         scenario: "chaos",
-        opts: CfgOpts { sessions: 2, late_psk: 200, record: idx % 4 == 0, surplus_rs: 100, evil_pub: 60, ..CfgOpts::default() },
+        opts: CfgOpts { sessions: 2, late_psk: 200, record: idx % 4 == 0, surplus_rs: 100, evil_pub: 60, noncanonical_rs: 40, ..CfgOpts::default() },
         profile: chaos_profile(),
         mode: "plain",
         warm_parallel: true,
@@ -1062,6 +1078,11 @@ pub fn sc_framing_boundary(idx: u64, seed: u64, _t: bool) -> RunOut {
                 d.step(Op::Read { node: 1, src: Src::Pick { k: 0, consume: false }, mutation: m, out, nonce: NonceSel::Auto });
             }
             d.step(Op::Read { node: 1, src: Src::Next, mutation: Mutation::None, out: Buf::Exact, nonce: NonceSel::Auto });
+        }
+        // a non-conforming peer that holds the keys: authentic messages at and beyond the limit
+        for extra in [0u32, 1, 16, 17] {
+            let plen = 65_535 - 16 + extra;
+            d.step(Op::Read { node: 1, src: Src::Forged { plen, pseed: 34 + extra }, mutation: Mutation::None, out: Buf::Ample, nonce: NonceSel::At(0) });
         }
     })
 }
